@@ -319,6 +319,15 @@ pub fn emit_twice(_args: &[String]) -> Result<Value> {
     Ok(json!({"violated": !failures.is_empty(), "modules_checked": checked, "failures": failures}))
 }
 
+pub const GC_F17: &[(&str, &str)] = &[
+    // known finding F17: a function named by a live `ref.func` whose only declaration (an element segment, or a funcref global initialiser)
+    // is itself unreachable: gc removes the declaration and the output no longer validates ("undeclared function reference")
+    ("undeclared-ref-func-after-gc-active-segment", r#"(module (table $t 1 funcref) (func $f) (elem (table $t) (i32.const 0) func $f)
+        (func (export "g") (result funcref) (ref.func $f)))"#),
+    ("undeclared-ref-func-after-gc-passive-segment", r#"(module (func $f) (elem $p func $f) (func (export "g") (result funcref) (ref.func $f)))"#),
+    ("undeclared-ref-func-after-gc-global", r#"(module (func $f) (global $unused funcref (ref.func $f)) (func (export "g") (result funcref) (ref.func $f)))"#),
+];
+
 pub const GC_CORPUS: &[(&str, &str)] = &[
     ("elem-externref-global", r#"(module
         (import "e" "x" (global $x externref))
@@ -402,6 +411,7 @@ pub fn gc(args: &[String]) -> Result<Value> {
     let mut failures = vec![];
     let mut checked = 0;
     let mut corpus: Vec<(String, String)> = GC_CORPUS.iter().map(|(a, b)| (a.to_string(), b.to_string())).collect();
+    for (n, t) in GC_F17 { corpus.push((n.to_string(), t.to_string())); }
     for (n, t) in crate::entities::CORPUS { corpus.push((format!("entities/{n}"), t.to_string())); }
     // `gc random N [SEED]`: N generated modules (random reference graphs over every entity kind) instead of the hand-written corpus
     let random = args.first().map(|a| a == "random").unwrap_or(false);
@@ -444,7 +454,11 @@ pub fn gc(args: &[String]) -> Result<Value> {
         });
         match r {
             Ok(Ok(None)) => {}
-            Ok(Ok(Some(w))) => failures.push(json!({"module": name, "wat": text, "what": w})),
+            Ok(Ok(Some(w))) => {
+                let mut f = json!({"module": name, "wat": text, "what": w});
+                if name.starts_with("undeclared-ref-func-after-gc") && w.contains("undeclared function reference") { f["finding_key"] = json!("C06:ref-func-left-undeclared-after-gc"); }
+                failures.push(f)
+            }
             Ok(Err(e)) => failures.push(json!({"module": name, "wat": text, "error": format!("{e:#}")})),
             Err(_) => failures.push(json!({"module": name, "wat": text, "what": "panic during gc / emit"})),
         }
